@@ -83,7 +83,12 @@ Section Group.
   (* ---- size / tiebreaker / sort / budget ---------------------------------- *)
   Definition str_max (a b : string) : string :=
     match String.compare a b with Lt => b | _ => a end.
-  Definition g_size (g : grp) : N := fold_left (fun s p => (s + p_size p)%N) g 0%N.
+  (* group.size is a uint64 and `g.size += pkg.InstalledSize` wraps silently:
+     every addition is taken modulo 2^64 (InstalledSize itself is a uint64; the
+     harness only produces sizes below 2^64) *)
+  Definition u64_mod : N := 18446744073709551616%N.
+  Definition wrap64 (n : N) : N := (n mod u64_mod)%N.
+  Definition g_size (g : grp) : N := fold_left (fun s p => wrap64 (s + p_size p)) g 0%N.
   Definition g_tie (g : grp) : string := fold_left (fun s p => str_max s (p_name p)) g "".
 
   (* cmp.Or(cmp.Compare(b.size, a.size), cmp.Compare(a.tiebreaker, b.tiebreaker)) <= 0 *)
